@@ -503,6 +503,17 @@ ssize_t __wrap_recvmsg(int fd, struct msghdr *msg, int flags)
 
 /* ------------------------------------------------------------------- tun */
 
+/* chroot(): nothing is really changed (the sanitizer log files must stay reachable); afterwards the usual paths outside an
+   empty jail - /dev, /etc, /proc, /sys - are gone for open(). */
+static int jailed;
+
+int __wrap_chroot(const char *path)
+{
+	(void)path;
+	jailed = 1;
+	return 0;
+}
+
 int __wrap_open(const char *path, int flags, ...)
 {
 	mode_t mode = 0;
@@ -511,6 +522,10 @@ int __wrap_open(const char *path, int flags, ...)
 		va_start(ap, flags);
 		mode = va_arg(ap, mode_t);
 		va_end(ap);
+	}
+	if (jailed && path && (!strncmp(path, "/dev/", 5) || !strncmp(path, "/etc/", 5) || !strncmp(path, "/proc/", 6) || !strncmp(path, "/sys/", 5))) {
+		errno = ENOENT;
+		return -1;
 	}
 	if (path && (!strcmp(path, "/dev/net/tun") || !strcmp(path, "/dev/tun"))) {
 		int fd = reserve_fd();
